@@ -17,7 +17,7 @@ theorem add_refines (l : List Rule) (r : Rule) : add none l r = Spec.add l r := 
   unfold add Spec.add
   by_cases h : r ∈ l <;> simp [has, h]
 
-theorem bubbleRev_perm (pi p : Nat) (r : Rule) (rev : List Rule) :
+theorem bubbleRev_perm (pi : Nat) (p : Int) (r : Rule) (rev : List Rule) :
     (bubbleRev pi p r rev).Perm (r :: rev) := by
   induction rev with
   | nil => simp [bubbleRev]
